@@ -123,3 +123,39 @@ Definition check_values (N : nat) (pssm : list (list f32)) (s : list nat) (vals 
 (* the property checker behind the driver's PROPFAIL decision *)
 Definition check_C01 (N : nat) (pssm : list (list f32)) (s : list nat) (vals : list f32) : bool :=
   passes (check_values N pssm s vals).
+
+(* ---------- identical results across pipelines, arms and sub-range calls ---------- *)
+
+(* the observed result of one call: None = panic, Some (max_index, rows of 32-bit patterns) *)
+Definition obs : Type := option (nat * list (list Z)).
+
+Fixpoint row_eqb (a b : list Z) : bool :=
+  match a, b with
+  | [], [] => true
+  | x :: a', y :: b' => Z.eqb x y && row_eqb a' b'
+  | _, _ => false
+  end.
+
+Fixpoint rows_eqb (a b : list (list Z)) : bool :=
+  match a, b with
+  | [], [] => true
+  | x :: a', y :: b' => row_eqb x y && rows_eqb a' b'
+  | _, _ => false
+  end.
+
+Definition obs_eqb (a b : obs) : bool :=
+  match a, b with
+  | None, None => true
+  | Some (m1, r1), Some (m2, r2) => Nat.eqb m1 m2 && rows_eqb r1 r2
+  | _, _ => false
+  end.
+
+(* every other pipeline / arm returned what the generic pipeline returned *)
+Definition check_same_results (g : obs) (others : list obs) : bool := forallb (obs_eqb g) others.
+
+(* a call on rows a..b returned rows a..b of the full scan and the same max_index *)
+Definition check_subrange (full sub : obs) (a b : nat) : bool :=
+  match full, sub with
+  | Some (m1, r1), Some (m2, r2) => Nat.eqb m1 m2 && rows_eqb r2 (firstn (b - a) (skipn a r1))
+  | _, _ => false
+  end.
